@@ -20,6 +20,7 @@ namespace {
 struct SplShared
 {
   Spline<3, SE3d> sp;
+  Spline<3, SE3d> glued;  // several cropped pieces glued together (segments with non-trivial crop offsets)
   Spline<3, Eigen::Vector2d> spv;
   BSpline<3, SO3d> bs3;
   BSpline<5, SE2d> bs5;
@@ -32,6 +33,14 @@ void * spl_make()
   s->sp = Spline<3, SE3d>::ConstantVelocity(v, 2.);
   s->sp += Spline<3, SE3d>::ConstantVelocity(-0.7 * v, 1.);
   s->sp += Spline<3, SE3d>::FixedCubic(SE3d::exp(0.4 * v), 0.1 * v, -0.2 * v, 1.5);
+  {
+    const auto a = Spline<3, SE3d>::FixedCubic(SE3d::exp(0.6 * v), 0.3 * v, -0.1 * v, 2.0);
+    const auto b = Spline<3, SE3d>::FixedCubic(SE3d::exp(-0.4 * v), -0.2 * v, 0.25 * v, 1.0);
+    s->glued = a.crop(0.4, 1.7);
+    s->glued += b.crop(0.2, 0.9);
+    s->glued += a.crop(1.1, 1.9);
+    s->glued += b.crop(0.05, 0.5);
+  }
   s->spv = Spline<3, Eigen::Vector2d>::ConstantVelocity(Eigen::Vector2d(1, -2), 1.);
   s->spv += Spline<3, Eigen::Vector2d>::FixedCubic(Eigen::Vector2d(0.5, 2), Eigen::Vector2d(1, 1), Eigen::Vector2d(-1, 0.5), 2.);
   std::vector<SO3d> c3;
@@ -48,6 +57,15 @@ void spl_op(const void * p, int t, std::vector<double> & out)
   for (double tt : {0.3 + 0.9 * t, 2.0, 2.6 + 0.4 * t, 9.0}) {
     Eigen::Matrix<double, 6, 1> vel, acc;
     auto g = s->sp(tt, vel, acc);
+    put(out, g.coeffs());
+    put(out, vel);
+    put(out, acc);
+  }
+  // evaluations in different cropped segments of the shared glued spline, in thread-dependent order
+  for (int k = 0; k < 8; ++k) {
+    const double tt = s->glued.t_max() * (((k * 3 + t * 5) % 8) + 0.5) / 8.0;
+    Eigen::Matrix<double, 6, 1> vel, acc;
+    auto g = s->glued(tt, vel, acc);
     put(out, g.coeffs());
     put(out, vel);
     put(out, acc);
